@@ -350,18 +350,19 @@ type vfC06RS struct {
 	keys [2]uint64
 	log  *vfNetLog
 
-	mu        sync.Mutex
-	got       [2]int64  // verified arrivals: [Up] at the target, [Down] at the client
-	bad       [2]string // first content mismatch per direction
-	sent      [2]int64  // bytes accepted by Write at the sender
-	attempted [2]int64  // sent + size of a write that failed
-	writeErr  [2]string
-	srvTook   int64
-	drained   int64 // bytes the scripted target read from its end
-	waits     []vfC06Waiter
-	scratch   [2][]byte
-	dials     int
-	errAfter  int64 // t_error: server-side Read fails once it took this many bytes; -1 = never
+	mu         sync.Mutex
+	got        [2]int64  // verified arrivals: [Up] at the target, [Down] at the client
+	bad        [2]string // first content mismatch per direction
+	sent       [2]int64  // bytes accepted by Write at the sender
+	attempted  [2]int64  // sent + size of a write that failed
+	writeErr   [2]string
+	srvTook    int64
+	drained    int64 // bytes the scripted target read from its end
+	waits      []vfC06Waiter
+	scratch    [2][]byte
+	stuckWrite bool
+	dials      int
+	errAfter   int64 // t_error: server-side Read fails once it took this many bytes; -1 = never
 
 	dialed     chan struct{} // closed when Outbound.TCP created the target
 	tgtEOF     chan struct{} // closed when the scripted target's read side ended (server closed tConn)
@@ -554,6 +555,21 @@ func (g *vfC06Group) Wait() {
 	for ; g.n > 0; g.n-- {
 		<-g.ch
 	}
+}
+
+// WaitFor is Wait bounded by d of virtual time; false = some goroutine is still running.
+func (g *vfC06Group) WaitFor(d time.Duration) bool {
+	t := time.NewTimer(d)
+	defer t.Stop()
+	for g.n > 0 {
+		select {
+		case <-g.ch:
+			g.n--
+		case <-t.C:
+			return false
+		}
+	}
+	return true
 }
 
 // ---------------------------------------------------------------- world runtime
@@ -833,7 +849,16 @@ func (run *vfC06Run) drive(rs *vfC06RS) {
 		} else {
 			run.closeClient(rs)
 		}
-		wg.Wait()
+		// The client connection was closed while another goroutine may sit in Write (legal for a
+		// net.Conn). If the QUIC connection then goes away (veto) that Write is never released
+		// (observation, same root cause as vfC06StuckRelays); a write deadline frees it.
+		if !wg.WaitFor(60 * time.Second) {
+			rs.mu.Lock()
+			rs.stuckWrite = true
+			rs.mu.Unlock()
+			_ = conn.SetWriteDeadline(time.Unix(1, 0))
+			wg.Wait()
+		}
 	case "c_close_on_veto":
 		wg.Go(func() {
 			if run.wait(u, rs.dialed) == "ok" {
@@ -1249,6 +1274,9 @@ func vfC06Judge(k *vfKit, run *vfC06Run, evs []vfEvent) {
 					k.Count("complete_but_no_eof_seen", 1)
 				}
 			}
+		}
+		if rs.stuckWrite {
+			k.Count("obs_client_write_stuck_after_close", 1)
 		}
 		k.Count("ev_relays_judged", 1)
 		rs.mu.Unlock()
